@@ -859,6 +859,13 @@ func (r *SeqRun) RecheckOld(when string) *kernel.Violation {
 	// that a commit is also read after its descendants and after its
 	// ancestors have been resolved in the same process.
 	h := r.E.W.Disk.NewHandle("reader", false)
+	if r.E.W.Tape.Seed&2 != 0 {
+		// In half of the runs no reader ever leaves snapshot files behind,
+		// so that a reader starting at the tip has to fold the whole chain
+		// of commits and meets the older ones afterwards in its own cache.
+		h.ReadOnly = true
+		r.E.W.Out.Probe("reader-persists-nothing")
+	}
 	rd, err := r.E.W.OpenOn(r.E.Ctx, h)
 	if err != nil {
 		return kernel.Violatef(r.Sig+":unreadable", "%s: a fresh reader cannot open the lake: %v", when, err)
